@@ -150,12 +150,20 @@ def run_one(text, bufsize, prefix=None, policy=None, kind='stringio', tag=None, 
             src = ChunkedStream(text, ctx if policy is None else None, policy)
         elif kind == 'plain':
             src = io.StringIO(text)
+        elif kind.startswith('plain@'):
+            # an open stream is read from where the caller positioned it: behind a transport header line / an earlier interchange
+            pre = PREFIXES[kind[6:]]
+            src = io.StringIO(pre + text)
+            src.seek(len(pre))
         else:
             tmp = tempfile.mkdtemp(prefix='c01_', dir=os.environ.get('VERIF_SCRATCH', '/dev/shm'))
             p = os.path.join(tmp, 'in.x12')
+            pre = PREFIXES[kind[5:]] if kind.startswith('file@') else ''
             with open(p, 'w', encoding='ascii', newline='') as f:
-                f.write(text)
+                f.write(pre + text)
             src = p if kind == 'path' else open(p, 'r', encoding='ascii')
+            if pre:
+                src.read(len(pre))
         try:
             got = read_all(src, bufsize)
         except Exception as e:
@@ -163,7 +171,7 @@ def run_one(text, bufsize, prefix=None, policy=None, kind='stringio', tag=None, 
             return [('C01|%s|%s|raises %s@%s' % (tag, kind if kind != 'stringio' else sched, type(e).__name__, core.where(e)),
                      'text=%r choices=%r policy=%r: %r' % (text[106:], ctx.choices, policy, e))], ctx
         finally:
-            if kind == 'file':
+            if kind.startswith('file'):
                 src.close()
         v = judge(text, got, tag if kind == 'stringio' else tag + '|' + kind)
         if v is None:
@@ -292,6 +300,9 @@ def work_resume(shard):
     return P
 
 
+PREFIXES = {'line': '$$REQUEST ID=1 BATCH=7\n', 'interchange': ref.isa('00401', '!', '|', '>', ctl='000000099') + 'IEA|0|000000099!'}
+
+
 def work_kinds(shard):
     d, icvn, n = shard
     P = core.Part()
@@ -301,7 +312,7 @@ def work_kinds(shard):
             if '\r' in body:
                 continue       # text-mode files translate CR; only the CR-free language is comparable
             text = hdr + body
-            for kind in ('plain', 'file', 'path'):
+            for kind in ('plain', 'file', 'path', 'plain@line', 'plain@interchange', 'file@line', 'file@interchange'):
                 v, ctx = run_one(text, None, None, None, kind)
                 P.n += 1
                 P.out('kind|%s' % kind)
@@ -404,7 +415,7 @@ def run(R):
                 'windows': 'every character of 6 tails at every offset -%d..+%d around 106+8192 and 106+2*8192, incl. a segment longer than the buffer' % (span, span),
                 'isa fields': '%d delimiter triples x 2 versions x 14 headers with the component separator inside ISA02/04/06/08/09 x all bodies <= %d (+ the header repeated mid-stream) x {default, buffer 3, one-char reads}' % (len(triples(T)), 3 if T else 2),
                 'resume': 'all bodies <= %d x buffer {8192, 3} x every k: the consumer leaves its loop after k segments and iterates the same reader again' % nR,
-                'source kinds': 'StringIO, open text file, path string on all CR-free bodies <= %d' % (4 if T else 3)}
+                'source kinds': 'StringIO, open text file, path string, and StringIO / open file positioned behind a header line or an earlier interchange, on all CR-free bodies <= %d' % (4 if T else 3)}
     R.assumptions = ['pieces whose leading blanks are followed by CR/LF, and blank-only pieces, are left open by the statement and are skipped (counted)',
                      'path/file source kinds are compared on CR-free texts only (text mode translates CR)',
                      'short-read menu for reads that could return more than 9 characters is {1,2,half,full-2,full-1}']
